@@ -22,7 +22,7 @@ RAISING_CALLS = {"sys.exit": "SystemExit", "gunicorn.util.reraise": None, "exit"
 
 
 class Node:
-    __slots__ = ("id", "kind", "ast", "stmt", "out", "inn", "cover", "raised", "copy")
+    __slots__ = ("id", "kind", "ast", "stmt", "out", "inn", "cover", "raised", "copy", "always_raises")
 
     def __init__(self, id, kind, astnode=None, stmt=None):
         self.id = id
@@ -34,6 +34,7 @@ class Node:
         self.cover = []        # expression roots evaluated by this node
         self.raised = None     # explicit exception class name for raise nodes
         self.copy = None       # finally-copy tag
+        self.always_raises = False
 
     def __repr__(self):
         return "<%s#%d %s>" % (self.kind, self.id, self.text[:60])
@@ -339,7 +340,7 @@ class _Builder:
             fr = self.seq(trynode.finalbody, [(j, "next")], outer)
             for t in self.exc_targets(outer, None):
                 for a, l in fr:
-                    self.g._edge(a, t, "exc" if l == "next" else l)
+                    self.g._edge(a, t, "reraise" if l == "next" else l)
         return self.g._fin_exc[key]
 
     # -- abrupt completion routing through finally blocks
@@ -427,6 +428,7 @@ class _Builder:
             return []
         if isinstance(st, ast.Raise):
             n = self.new_stmt(st, frontier, stack, may_raise=False)
+            n.always_raises = True
             n.raised = self.raised_class(st, stack)
             self.add_exc(n, stack, n.raised)
             return []
@@ -445,6 +447,7 @@ class _Builder:
         if isinstance(st, ast.Assert):
             t, f = self.cond(st.test, frontier, stack, st)
             n = g._new("stmt", st, st)
+            n.always_raises = True
             n.raised = "AssertionError"
             self.connect(f, n)
             self.add_exc(n, stack, "AssertionError")
@@ -462,6 +465,7 @@ class _Builder:
                 g._edge(n, g.noreturn, "next")
                 return []
             if q in RAISING_CALLS:
+                n.always_raises = True
                 n.raised = RAISING_CALLS[q]
                 # replace the generic exc edges by typed ones
                 for b, l in list(n.out):
